@@ -82,51 +82,22 @@ theorem queryStrings_rule (q : Query) (n : Bytes) (d : Option (List Bytes)) :
   | nil => simp
   | cons a t => simp
 
-/-- `QueryTrim`: converted with `strings.TrimSpace`.  NOTE the default is converted too
-    (`TrimSpace(Query(name, default))`): the rule holds with the *trimmed* default. -/
+/-- `QueryTrim`: converted with `strings.TrimSpace`; the caller's default is returned unchanged -/
 theorem queryTrim_rule (q : Query) (n : Bytes) (d : Option Bytes) :
-    queryTrim q n d = accessRule (qLookup q n) trimSpace (d.map trimSpace) [] := by
-  unfold queryTrim
-  rw [query_rule]
-  unfold accessRule
+    queryTrim q n d = accessRule (qLookup q n) trimSpace d [] := by
+  unfold queryTrim query accessRule qGet
   cases hq : qLookup q n with
-  | none => cases d <;> simp <;> rfl
-  | some v => cases d <;> cases v <;> simp <;> rfl
+  | none => cases d <;> simp [trimSpace_nil]
+  | some v => cases d <;> cases v <;> simp [trimSpace_nil]
 
-/-- `QueryUnescape`: converted with `url.QueryUnescape`, "" when that fails.  NOTE the default
-    is converted too: the rule holds with the *unescaped* default. -/
+/-- `QueryUnescape`: converted with `url.QueryUnescape` ("" when that fails); the caller's default is
+    returned unchanged -/
 theorem queryUnescape_rule (q : Query) (n : Bytes) (d : Option Bytes) :
-    queryUnescapeAcc q n d =
-      accessRule (qLookup q n) (fun v => (queryUnescape v).getD []) (d.map fun v => (queryUnescape v).getD []) [] := by
-  unfold queryUnescapeAcc
-  rw [query_rule]
-  unfold accessRule
+    queryUnescapeAcc q n d = accessRule (qLookup q n) (fun v => (queryUnescape v).getD []) d [] := by
+  unfold queryUnescapeAcc query accessRule qGet
   cases hq : qLookup q n with
   | none => cases d <;> simp [queryUnescape]
   | some v => cases d <;> cases v <;> simp [queryUnescape]
-
-/-- Full-strength reading of "an absent one yields the caller's default" for `QueryTrim` … -/
-def queryTrim_rule_full : Prop :=
-  ∀ (q : Query) (n : Bytes) (d : Option Bytes), queryTrim q n d = accessRule (qLookup q n) trimSpace d []
-
-/-- … which the unchanged code does NOT satisfy: `QueryTrim("k", " ")` on an empty query is `""`. -/
-theorem queryTrim_rule_full_false : ¬ queryTrim_rule_full := by
-  intro h
-  have := h [] [107] (some [32])
-  revert this
-  decide
-
-/-- Full-strength reading for `QueryUnescape` … -/
-def queryUnescape_rule_full : Prop :=
-  ∀ (q : Query) (n : Bytes) (d : Option Bytes),
-    queryUnescapeAcc q n d = accessRule (qLookup q n) (fun v => (queryUnescape v).getD []) d []
-
-/-- … which fails as well: `QueryUnescape("k", "%")` on an empty query is `""`, not `"%"`. -/
-theorem queryUnescape_rule_full_false : ¬ queryUnescape_rule_full := by
-  intro h
-  have := h [] [107] (some [37])
-  revert this
-  decide
 
 /-- "a bind parameter that is present is returned … or the zero value" — `Param` (no default exists) -/
 theorem param_rule (ps : Params) (n : Bytes) :
